@@ -250,12 +250,14 @@ fn field_is_converted(f: &Field) -> bool {
     !f.attrs.iter().any(|a| matches!(a, Attr::Skip))
 }
 
-fn gen_def(rng: &mut Rng, defs: &[Def], lo: usize, index: usize) -> Def {
+fn gen_def(rng: &mut Rng, defs: &[Def], lo: usize, index: usize, wide: bool) -> Def {
     let kind = match rng.weighted(&[4, 3, 4]) {
         0 => Kind::Named,
         1 => Kind::Tuple,
         _ => Kind::Enum,
     };
+    // (wide definitions rotate through the kinds: named struct, tuple struct, enum with a wide tuple / named variant)
+    let kind = if wide { [Kind::Named, Kind::Tuple, Kind::Enum, Kind::Enum][index % 4] } else { kind };
     let mut nparams = rng.weighted(&[60, 28, 12]);
     // field-less structs (`struct T {}`, `struct T();`, `struct T;`): no parameters (an unused one does not compile)
     let fieldless = kind != Kind::Enum && rng.chance(1, 10);
@@ -263,8 +265,11 @@ fn gen_def(rng: &mut Rng, defs: &[Def], lo: usize, index: usize) -> Def {
     let mut nested = 0usize;
     let mut uniq = 0usize;
     let mut variants: Vec<Variant> = Vec::new();
+    // wide definitions (the extra ones behind the universe, see `main`): 11–13 fields in a struct / in one variant
+    // (two-digit positions: `field10` sorts before `field2`)
+    let fieldless = fieldless && !wide;
     if kind != Kind::Enum {
-        let n = if fieldless { 0 } else { 1 + rng.weighted(&[10, 16, 16, 14, 10, 6, 4, 4]) };
+        let n = if fieldless { 0 } else if wide { 11 + rng.below(3) as usize } else { 1 + rng.weighted(&[10, 16, 16, 14, 10, 6, 4, 4]) };
         let fields = gen_fields(rng, defs, lo, nparams, n, kind == Kind::Named, &mut nested, &mut uniq);
         variants.push(Variant { name: String::new(), attrs: vec![], kind: if kind == Kind::Named { VKind::Named } else { VKind::Tuple }, fields });
     } else {
@@ -277,7 +282,9 @@ fn gen_def(rng: &mut Rng, defs: &[Def], lo: usize, index: usize) -> Def {
                 _ => VKind::Named,
             };
             let n = if vkind == VKind::Unit || budget == 0 { 0 } else { (rng.range(1, 4) as usize).min(budget) };
-            budget -= n;
+            let vkind = if wide && v == 0 { if index % 2 == 0 { VKind::Tuple } else { VKind::Named } } else { vkind };
+            let n = if wide && v == 0 { 11 + rng.below(3) as usize } else { n };
+            budget -= n.min(budget);
             let vkind = if n == 0 { VKind::Unit } else { vkind };
             let fields = gen_fields(rng, defs, lo, nparams, n, vkind == VKind::Named, &mut nested, &mut uniq);
             let attrs = gen_attrs(rng, &Ty::Ent, &mut uniq, true);
@@ -1042,7 +1049,7 @@ fn main() {
         let sub = master.next();
         let mut rng = Rng::new(sub);
         for i in lo..hi {
-            let d = gen_def(&mut rng, &defs, lo, i);
+            let d = gen_def(&mut rng, &defs, lo, i, false);
             defs.push(d);
         }
         for i in lo..hi {
@@ -1050,6 +1057,17 @@ fn main() {
             blocks.extend(gen_blocks(&mut vr, &defs, lo, i));
         }
         k = hi;
+    }
+    // ... and behind them n/5 WIDE definitions (11–13 fields in a struct or in one variant), each from a generator of its
+    // own, so that the definitions above are what they were before these existed (recipes name definitions by index)
+    for j in 0..n / 5 {
+        let i = defs.len();
+        let sub = seed ^ 0x51DE_u64.wrapping_mul(j as u64 + 1).wrapping_mul(0x9E3779B97F4A7C15);
+        let mut rng = Rng::new(sub);
+        let d = gen_def(&mut rng, &defs, i, i, true);
+        defs.push(d);
+        let mut vr = Rng::new(sub ^ 0x77);
+        blocks.extend(gen_blocks(&mut vr, &defs, i, i));
     }
     if let Some((kk, set)) = &keep {
         project(&mut defs, &mut blocks, *kk, set);
@@ -1082,6 +1100,7 @@ fn main() {
         None => {
             let mut c = 0;
             let mut lo = 0;
+            let n = defs.len();   // (the wide definitions behind the universe included)
             while lo < n {
                 let hi = (lo + CHUNK).min(n);
                 let sel: Vec<&Block> = blocks.iter().filter(|b| b.def >= lo && b.def < hi).collect();
